@@ -698,6 +698,9 @@ impl<'a> Gen<'a> {
         allow_rooted: bool,
         rejections: &mut usize,
     ) -> (String, bool) {
+        // `..` from a base that is a link is resolved by the kernel from the link's target: no dot
+        // runs from anything but a plain directory (the world must never be left)
+        let dots = if Self::plain_dirs(model).iter().any(|d| d == base) { dots } else { 0 };
         for _ in 0..12 {
             let kind = self.rng.weighted(&[78, if dots > 0 { 11 } else { 0 }, if allow_rooted { 11 } else { 0 }]);
             let (expr, rooted) = match kind {
@@ -796,8 +799,28 @@ impl<'a> Gen<'a> {
                 _ => alt,
             };
         }
-        let w = self.rng.weighted(&[10, 10, 8, 8, 6, 5, 4, 3, 3, 5, 4, 4, 4, 3, 14, 3, 3, 4, 3, 3, 3, 2, 2, 3, 3, 2, 1]);
+        let w = self.rng.weighted(&[10, 10, 8, 8, 6, 5, 4, 3, 3, 5, 4, 4, 4, 3, 14, 3, 3, 4, 3, 3, 3, 2, 2, 3, 3, 2, 1, 2, 2, 1, 1]);
+        // (for the shapes below: two names whose concatenation is a name too, if there are such)
+        let (px, py) = {
+            let ns = self.names.clone();
+            let mut found = ("a".to_string(), "b".to_string());
+            'outer: for p in &ns {
+                for q in &ns {
+                    if ns.iter().any(|n| *n == format!("{}{}", p, q)) {
+                        found = (p.to_string(), q.to_string());
+                        break 'outer;
+                    }
+                }
+            }
+            (esc(&found.0), esc(&found.1))
+        };
         match w {
+            // a tree wildcard at the edge of a *repetition* that is followed or preceded by text: the
+            // separator between them is not optional (`<a/**/>b` does not match `ab`)
+            27 => format!("<{}/**/>{}", px, py),
+            28 => format!("<{}/**/:1,2>{}/**", px, py),
+            29 => format!("{}/<{}/**/>{}", ex, px, py),
+            30 => format!("{}</**/{}:1,>", px, py),
             // wholly literal text under a case flag (nothing variant in it but the case), and a
             // class that holds nothing but a separator (which never matches)
             24 => format!("(?i){}", esc(&fold_variant(&x, self.rng.below(6)))),
